@@ -1278,3 +1278,40 @@ package anytype
 //@ instantiate omap-kind(MapBools, TBool, argBool(ego.val[k]), VNil)
 //@ instantiate omap-kind(MapInts, TInt, argInt(ego.val[k]), VNil)
 //@ instantiate omap-kind(MapFloats, TFloat, argFloat(ego.val[k]), VNil)
+
+// Min / Max (C18): Reduce with an any-typed closure; domain of the property: all elements numeric, floats finite.
+//@ func (*list).Min$1 [C18]
+//@   requires isVFloat(min) && (isVInt(item) || isVFloat(item))
+//@   assigns  cell(present)
+//@   panics_iff false
+//@   ensures  set: deref(present) == true
+//@   returns  pick: result == (isVInt(item) ? (flt(i2f(vint(item)), vfloat(min)) ? VFloat(i2f(vint(item))) : min) : (flt(vfloat(item), vfloat(min)) ? item : min))
+//@ func (*list).Min callbacks [C18]
+//@   requires invL(ego)
+//@   let n := len(ego.val)
+//@   requires numeric: forall j int :: 0 <= j && j < n ==> isNumeric(ego.val[j])
+//@   requires finite: forall j int :: 0 <= j && j < n ==> fle(numF(ego.val[j]), float(MaxFloat64))
+//@   define RInv(acc val, i int) := isVFloat(acc) && (forall j int :: 0 <= j && j < i ==> fle(vfloat(acc), numF(ego.val[j]))) && ((i == 0 && same(vfloat(acc), float(MaxFloat64))) || (i > 0 && (exists j int :: 0 <= j && j < i && feq(vfloat(acc), numF(ego.val[j])))))
+//@   assigns  nothing
+//@   panics_iff false
+//@   ensures  none: n == 0 ==> same(result, float(0))
+//@   ensures  bound: n > 0 ==> (forall j int :: 0 <= j && j < n ==> fle(result, numF(ego.val[j])))
+//@   ensures  attained: n > 0 ==> (exists j int :: 0 <= j && j < n && feq(result, numF(ego.val[j])))
+
+//@ func (*list).Max$1 [C18]
+//@   requires isVFloat(max) && (isVInt(item) || isVFloat(item))
+//@   assigns  cell(present)
+//@   panics_iff false
+//@   ensures  set: deref(present) == true
+//@   returns  pick: result == (isVInt(item) ? (flt(vfloat(max), i2f(vint(item))) ? VFloat(i2f(vint(item))) : max) : (flt(vfloat(max), vfloat(item)) ? item : max))
+//@ func (*list).Max callbacks [C18]
+//@   requires invL(ego)
+//@   let n := len(ego.val)
+//@   requires numeric: forall j int :: 0 <= j && j < n ==> isNumeric(ego.val[j])
+//@   requires finite: forall j int :: 0 <= j && j < n ==> fle(float(NegMaxFloat64), numF(ego.val[j]))
+//@   define RInv(acc val, i int) := isVFloat(acc) && (forall j int :: 0 <= j && j < i ==> fle(numF(ego.val[j]), vfloat(acc))) && ((i == 0 && same(vfloat(acc), float(NegMaxFloat64))) || (i > 0 && (exists j int :: 0 <= j && j < i && feq(vfloat(acc), numF(ego.val[j])))))
+//@   assigns  nothing
+//@   panics_iff false
+//@   ensures  none: n == 0 ==> same(result, float(0))
+//@   ensures  bound: n > 0 ==> (forall j int :: 0 <= j && j < n ==> fle(numF(ego.val[j]), result))
+//@   ensures  attained: n > 0 ==> (exists j int :: 0 <= j && j < n && feq(result, numF(ego.val[j])))
